@@ -104,6 +104,8 @@ def check(tier: str, seed: int, t0: float, build: core.BuildStatus) -> int:
                 continue
             if kind.startswith("md_collection") and be != "atlas":
                 continue
+            if kind.startswith("md_job") and be != "atlas":
+                continue  # job scripts are only rendered (and checked) by the ATLAS executor
             for _ in range(n_graft):
                 src, q, extra = qgen.gen_grafted(rng, uni, kind, depth=rng.choice([1, 2, 3]))
                 r = run_one(model, be, src, md + extra)
@@ -121,7 +123,7 @@ def check(tier: str, seed: int, t0: float, build: core.BuildStatus) -> int:
                                 "implementation": "returned a package", "model": [r["model"], r["mcls"]],
                                 "broken": "property oracle: a query with an unsupported construct must make translation raise (theorem C09_refuses_at_any_position describes the model)"}))
                     continue
-                if r["model"] is not None and r["stage"] != "transform":
+                if r["model"] is not None and r["stage"] != "transform" and not kind.startswith("md_"):
                     if r["model"] == "ok":
                         oc.correspondence_breaks.append({"backend": be, "graft": kind, "query": src, "implementation": [r["impl"], r["cls"]], "model": "ok"})
                     else:
